@@ -47,8 +47,30 @@ def run(repo: Repo) -> Result:
     res.explanation = "agreement between the lexer's regex alternatives (parsed, not matched) and the branches of _tokenize_template; write-nothing / write-verbatim rules for comment and content nodes"
     res.assumptions = ["regex alternation-order semantics for overlapping alternatives are not decided"]
     lm = LexModel(repo)
-    tok = repo.func("liquid.lex._tokenize_template")
-    mod = tok.module
+    from ..normalize import NFunc as _NFn
+    from ..normalize import lexer_canonical as _lexer_canonical
+
+    tok0 = repo.func("liquid.lex._tokenize_template")
+    # locals named after their definitions: match / kind (= match.lastgroup) / value / name
+    tok = _NFn(tok0, _lexer_canonical(tok0.node))
+    # the comment nesting counter is the local that is both incremented and decremented by one
+    inc_ = {n_.target.id for n_ in ast.walk(tok.node) if isinstance(n_, ast.AugAssign) and isinstance(n_.target, ast.Name) and isinstance(n_.op, ast.Add) and text(n_.value) == "1"}
+    dec_ = {n_.target.id for n_ in ast.walk(tok.node) if isinstance(n_, ast.AugAssign) and isinstance(n_.target, ast.Name) and isinstance(n_.op, ast.Sub) and text(n_.value) == "1"}
+    if len(inc_ & dec_) == 1 and "comment_depth" not in (inc_ & dec_) and not any(isinstance(x_, ast.Name) and x_.id == "comment_depth" for x_ in ast.walk(tok.node)):
+        cd_ = next(iter(inc_ & dec_))
+        for x_ in ast.walk(tok.node):
+            if isinstance(x_, ast.Name) and x_.id == cd_:
+                x_.id = "comment_depth"
+    # the left-strip flag is the local tested by `if <flag>: value = value.lstrip()`
+    for n_ in ast.walk(tok.node):
+        if isinstance(n_, ast.If) and isinstance(n_.test, ast.Name) and any(isinstance(c_, ast.Call) and callee_name(c_) == "lstrip" and not c_.args for c_ in ast.walk(n_)):
+            flag_ = n_.test.id
+            if flag_ != "lstrip" and not any(isinstance(x_, ast.Name) and x_.id == "lstrip" for x_ in ast.walk(tok.node)):
+                for x_ in ast.walk(tok.node):
+                    if isinstance(x_, ast.Name) and x_.id == flag_:
+                        x_.id = "lstrip"
+            break
+    mod = tok0.module
 
     # collect kind-branches: (kind constant, body, inside_comment_depth)
     branches: list[tuple[str, list[ast.stmt], bool]] = []
@@ -285,7 +307,7 @@ def run(repo: Repo) -> Result:
     lp = repo.own_method("liquid.builtin.content.Literal", "parse")
     res.ob(lp.qual)
     rets = [s for s in walk_no_nested(lp.node) if isinstance(s, ast.Return)]
-    if not (len(rets) == 1 and isinstance(rets[0].value, ast.Call) and len(rets[0].value.args) == 2 and text(rets[0].value.args[1]) == "token.value"):
+    if not (len(rets) == 1 and isinstance(rets[0].value, ast.Call) and len(rets[0].value.args) == 2 and text(rets[0].value.args[1]) == f"{text(rets[0].value.args[0])}.value"):
         res.add("C10-TEXT", lp.qual, "token-value", "Literal.parse must build the content node from token.value unchanged", lp.file, lp.line)
     res.stats.update(rule_sets=len(lm.rulesets), alternatives=sorted({a.kind for rs in lm.rulesets for a in rs.alts}), kind_branches=len(branches))
     # ---- C10-BLANK ------------------------------------------------------------------
